@@ -3554,7 +3554,11 @@ class Hex(Adapter):
     """
     def _decode(self, obj, context, path):
         if isinstance(obj, int):
-            return HexDisplayedInteger.new(obj, "0%sX" % (2 * self.subcon._sizeof(context, path)))
+            try:
+                digits = 2 * self.subcon._sizeof(context, path)
+            except SizeofError:
+                digits = 2 * ((obj.bit_length() + 7) // 8)
+            return HexDisplayedInteger.new(obj, "0%sX" % (digits, ))
         if isinstance(obj, bytes):
             return HexDisplayedBytes(obj)
         if isinstance(obj, dict):
